@@ -67,12 +67,12 @@ func init() {
 			if tier == "thorough" {
 				return 14 * time.Minute
 			}
-			return 80 * time.Second
+			return 4 * time.Minute
 		},
 		Assumptions: []string{
-			"mock genesis (chain id 100, 3 genesis pillars); four scripted chain histories: empty, ledger (account traffic, pool, unreceived), embedded (tokens, stakes, fusions, sentinels, pillars, sporks, accelerator projects, several epochs), long (1100 momentums; thorough: 1030 accelerator projects)",
+			"mock genesis (chain id 100, 3 genesis pillars); five scripted chain histories: empty, ledger (account traffic, pool, unreceived), embedded (tokens, stakes, fusions, sentinels, pillars, sporks, accelerator projects, several epochs), long (1100 momentums; thorough: 1030 accelerator projects), bridge (bridge-and-liquidity spork active through C10's administrator prefix with its shrunk administrator delays and lock periods; 1031 wrap and 1030 unwrap requests, liquidity stakes)",
 			"process globals owned by the worker: consensus.EpochDuration = 1h (as the repository's embedded tests), common.Clock = logical clock, types.AcceleratorSpork.SporkId / ImplementedSporksMap set to the spork the embedded/long chain activates itself",
-			"bridge / liquidity / htlc sporks are not activated: their paged lists are exercised on empty storage only",
+			"the bridge and liquidity lists hold data on the bridge chain only (empty storage elsewhere); the HTLC spork is activated on no chain; on bridge request lists longer than RpcMaxPageSize the page-by-page walks use sizes 3 and 1024 (sizes 1 and 2 are evaluated on the first, last and out-of-range pages by the grid)",
 			"the APIs are constructed over an adapter implementing zenon.Zenon from the harness node (Chain, Consensus); PillarApi in 'testing' mode (consensus cache refreshed synchronously)",
 			"part (c) drives rpc/server in-process: ServeHTTP with httptest recorders and ServeCodec over net.Pipe, no sockets, no websocket / IPC transports",
 		},
